@@ -160,9 +160,10 @@ def c20(ctx):
                     if c and c.get("str") in ("lint", "parse", "exec"):
                         names.append(c["str"])
         cmds = []
+        loaders = _loaders(F)
         for bi, t in cli.calls():
-            if callee_def(t) == "cli::load_and_run_from_command_line":
-                d = tables.describe_value(cli, t["args"][0])
+            if callee_def(t) in loaders:
+                d = tables.describe_value(cli, t["args"][loaders[callee_def(t)]])
                 cmds.append(d[1] if d[0] == "agg" else "?")
         ok = set(names) == {"lint", "parse", "exec"} and sorted(cmds) == ["Command::Exec", "Command::Lint", "Command::Parse"]
         rep.ob("C20.R1", "subcommands-present", ok, "" if ok else "sub-command names %s, commands %s" % (sorted(set(names)), sorted(cmds)), cli.loc(), how="lint / parse / exec")
@@ -248,7 +249,7 @@ def c20(ctx):
     n = common.errflow(ctx, "C20.R3", lambda fn: fn.file.startswith("src/cli/") or fn.file == "src/lib.rs")
     lr = F.fn("cli::load_and_run_from_command_line")
     if lr is not None and cli is not None:
-        sites = [(bi, t) for bi, t in cli.calls() if callee_def(t) == lr.path]
+        sites = [(bi, t) for bi, t in cli.calls() if callee_def(t) in _loaders(F)]
         tries = [(bi, t) for bi, t in cli.calls() if callee_def(t) == "std::ops::Try::branch"]
         ok = len(sites) == 3 and all(any(flows_into(cli, sb, tt["args"][0]) for tb, tt in tries) for sb, st in sites)
         rep.ob("C20.R3", "file-errors-propagated", ok, "" if ok else "the io::Result of loading the file is not propagated with `?` in all three arms", cli.loc(), how="load_and_run(..)? x3")
@@ -298,3 +299,23 @@ def render_rule(ctx, rule):
                 term = True
     rep.ob(rule, "render::own-terminator", term, "" if term else "no line break of the function's own reaches the rendered text: a diagnostic without suggestions is not terminated and runs into the next one", fn.loc(),
            how="constant ending in \\n flows from the body into the result")
+
+
+
+def _loaders(F):
+    """load_and_run_from_command_line and the private helpers of cli/mod.rs that return its result for the command they are given:
+    {function path: index of the command argument}"""
+    base = "cli::load_and_run_from_command_line"
+    out = {base: 0}
+    for _ in range(2):
+        for fn in F.all_fns(tests=False):
+            if fn.kind == "closure" or fn.file != "src/cli/mod.rs" or fn.path in out or not fn.mir:
+                continue
+            for bi, t in fn.calls():
+                d = callee_def(t)
+                if d in out and t["dest"]["l"] == 0:
+                    src = {dd for dd, _ in origins(fn, t["args"][out[d]])}
+                    ps = [dd[1] for dd in src if dd[0] == "param"]
+                    if len(src) == 1 and len(ps) == 1:
+                        out[fn.path] = ps[0] - 1
+    return out
